@@ -458,20 +458,12 @@ func (c *Ctx) c07Flags() {
 		}
 		r.Check("C07-5", key+":success-return", c.Pos(fn.Pos()), n >= 1, "success return of lookupConverterFunc not recognised")
 	}
-	// wrappers
-	r.Rule("C01-6", "wrapper nodes (String() call, conversion) are only built around a node X with X.ReturnsError() == false (a two-value call cannot be wrapped)")
-	for _, s := range append(c.CallsTo(fnNewStringer), c.CallsTo(fnNewTypecast)...) {
-		args := s.Args()
-		x := c.O.Of(args[len(args)-1]).String()
-		d := c.ReachOf(s.Instr)
-		ok := d.Implies(c.M(false, func(t *core.Term) bool { return t.IsCallTo(invRetErr) && t.Args[0].String() == x }))
-		r.Check("C01-6", FnKey(s.Fn)+":"+shortCallee(s.Callee), c.Pos(s.Pos()), ok, "a wrapper is put around a node that may return (value, error): the emitted conversion / String() call would not compile and the error flag is lost; reach: "+d.Describe(c.O))
-	}
+	c.wrapperRule("C07-9")
 	for _, tn := range []string{"TypecastEntry", "StringerEntry"} {
 		if fn := c.P.LookupMethod("/pkg/builder/model", tn, "ReturnsError"); fn != nil {
 			rets := core.Returns(fn)
 			ok := len(rets) == 1 && (c.O.Of(rets[0].Results[0]).Is("const", "false") || c.O.Of(rets[0].Results[0]).IsCallTo(invRetErr))
-			r.Check("C01-6", FnKey(fn), c.Pos(fn.Pos()), ok, "wrapper ReturnsError must be false (or delegate to the inner node)")
+			r.Check("C07-9", FnKey(fn), c.Pos(fn.Pos()), ok, "wrapper ReturnsError must be false (or delegate to the inner node)")
 		}
 	}
 }
